@@ -194,7 +194,10 @@ func runC03(c *Ctx) {
 					}
 					var steps int64
 					fmt.Sscan(f[3], &steps)
-					bound := new(big.Rat).Mul(eps, big.NewRat(steps+1, 1))
+					// steps = Spec.stepBound (non-zero bookings on the account in a commodity other than V dated inside
+					// the window up to the column date + days with a price declaration there, per such commodity):
+					// the bound of theorem C03_command_cell, no slack added
+					bound := new(big.Rat).Mul(eps, big.NewRat(steps, 1))
 					sv := ""
 					if has && k < len(vals) {
 						sv = vals[k]
@@ -220,5 +223,118 @@ func runC03(c *Ctx) {
 				}
 			}
 		}, "c03mtm", bc.F.Val, bc.J.Wire(), itoa(start-1), strings.Join(ds, ","))
+		if !bc.F.NoClose {
+			continue
+		}
+		// ---- monitors for --close=false: (1) theorem C03_command_flow_cell_noclose_partial: the row of an expense/equity account
+		// shows exactly -Spec.flowAt (every booking valued at the price of its own day); (2) theorem C03_gain_mirrors_adjustments
+		// read off the report: the row of Income:<path> shows -(flow on it - sum over the A/L accounts mirrored there of
+		// (shown value - flow on that account)), the value adjustments being shown value minus booked values. Both exact.
+		shownAll := map[string][]string{}
+		for _, r := range rows {
+			shownAll[r.Path] = r.Values
+		}
+		nd := len(dates)
+		bt.Add(func(ans string) {
+			if ans == "bad-op" || ans == "" {
+				return
+			}
+			flow := map[string][]*big.Rat{}
+			for _, item := range strings.Fields(ans) {
+				parts := strings.Split(item, "|")
+				if len(parts) != nd+1 {
+					continue
+				}
+				fl := make([]*big.Rat, nd)
+				for k, cell := range parts[1:] {
+					f := strings.Split(cell, ":")
+					if len(f) == 2 && f[1] != "none" {
+						fl[k], _ = ratOf(f[1])
+					}
+				}
+				flow[parts[0]] = fl
+			}
+			cellOf := func(acc string, k int) *big.Rat {
+				vals, has := shownAll[acc]
+				if !has || k >= len(vals) {
+					return new(big.Rat)
+				}
+				r, ok := ratOf(vals[k])
+				if !ok {
+					return nil
+				}
+				return r
+			}
+			adj := map[string][]*big.Rat{}
+			for acc, fl := range flow {
+				seg := strings.SplitN(acc, ":", 2)
+				switch seg[0] {
+				case "Assets", "Liabilities":
+					g := "Income"
+					if len(seg) == 2 {
+						g += ":" + seg[1]
+					}
+					if adj[g] == nil {
+						adj[g] = make([]*big.Rat, nd)
+						for k := range adj[g] {
+							adj[g][k] = new(big.Rat)
+						}
+					}
+					for k := 0; k < nd; k++ {
+						s := cellOf(acc, k)
+						if s == nil || fl[k] == nil || adj[g][k] == nil {
+							adj[g][k] = nil
+							continue
+						}
+						adj[g][k].Add(adj[g][k], new(big.Rat).Sub(s, fl[k]))
+					}
+				case "Income":
+				default:
+					for k := 0; k < nd; k++ {
+						s := cellOf(acc, k)
+						if s == nil || fl[k] == nil {
+							continue
+						}
+						want := new(big.Rat).Neg(fl[k])
+						if want.Sign() != 0 {
+							c.Tag("flow-nonzero")
+						}
+						c.Monitor("valued", bc.Idx, "flow_valued_at_booking_day", in, s.Cmp(want) == 0,
+							fmt.Sprintf("account %s column %s: shown %s, bookings at booking-day prices %s", acc, dates[k], s.FloatString(10), want.FloatString(10)))
+					}
+				}
+			}
+			gains := map[string]bool{}
+			for g := range adj {
+				gains[g] = true
+			}
+			for acc := range flow {
+				if strings.HasPrefix(acc, "Income") {
+					gains[acc] = true
+				}
+			}
+			for g := range gains {
+				for k := 0; k < nd; k++ {
+					s := cellOf(g, k)
+					fl := new(big.Rat)
+					if f, ok := flow[g]; ok {
+						fl = f[k]
+					}
+					a := new(big.Rat)
+					if x, ok := adj[g]; ok {
+						a = x[k]
+					}
+					if s == nil || fl == nil || a == nil {
+						continue
+					}
+					want := new(big.Rat).Neg(new(big.Rat).Sub(fl, a))
+					if a.Sign() != 0 {
+						c.Tag("gain-nonzero")
+					}
+					c.Monitor("valued", bc.Idx, "gain_on_mirror_account", in, s.Cmp(want) == 0,
+						fmt.Sprintf("account %s column %s: shown %s, expected -(flow %s - adjustments %s)", g, dates[k], s.FloatString(10), fl.FloatString(10), a.FloatString(10)))
+				}
+			}
+		}, "c03flow", bc.F.Val, bc.J.Wire(), itoa(start-1), strings.Join(ds, ","))
 	}
 }
